@@ -6941,8 +6941,8 @@ def cp2(m, run, rule='CP2.unit-domain-test-is-exact'):
 def la4(m, run, rule='LA4.pivoting-solvers-on-all-small-01-matrices'):
     """LA4: linalg.matrix_determinant, matrix_inverse and lu_factor interpreted with exact rational arithmetic on *every* non-singular
     matrix with entries 0 / 1 of size 1, 2 and 3 (and on the 2 x 2 matrices over {-1, 0, 1, 2}): whenever a routine returns a result, the
-    determinant is the Leibniz determinant, the inverse satisfies A A^-1 = I, and lu_factor's x satisfies A x = b (b symbolic-free:
-    the unit vectors).  Symbolic matrices (LA3) are generic - no minor vanishes by coincidence; integer matrices are where a leading
+    determinant is the Leibniz determinant, the inverse satisfies A A^-1 = I, and lu_factor's x satisfies A x = b (b: the unit
+    vectors) - and matrix_pivot has been called on the way (whatever helper the call has been moved into).  Symbolic matrices (LA3) are generic - no minor vanishes by coincidence; integer matrices are where a leading
     minor of the row-permuted matrix is zero although the matrix is regular, i.e. where the choice of the row exchanges matters"""
     import itertools
     from fractions import Fraction as F
@@ -6966,7 +6966,9 @@ def la4(m, run, rule='LA4.pivoting-solvers-on-all-small-01-matrices'):
         d = det(a)
         for name in res:
             fi = m.func('linalg.' + name)
-            sk = SK(m, {})
+            piv_calls = []
+            real_piv = m.func('linalg.matrix_pivot')
+            sk = SK(m, {('linalg', 'matrix_pivot'): Py(lambda sk_, node, *a_, _c=piv_calls, **k_: _c.append(1) or sk_.call(real_piv, list(a_), k_), 'matrix_pivot')})
             sk.exact = True
             try:
                 if name == 'matrix_determinant':
@@ -6984,6 +6986,9 @@ def la4(m, run, rule='LA4.pivoting-solvers-on-all-small-01-matrices'):
                     prod = [[sum(a[i][k] * F(out[k][j]) for k in range(n)) for j in range(n)] for i in range(n)]
                     if prod != b:
                         res[name].append((a, 'A x is %s for the unit right-hand sides, not b' % [[str(x) for x in r] for r in prod]))
+                if not piv_calls and not any(a is x[0] for x in res[name]):
+                    res[name].append((a, 'a result is returned without the rows having been exchanged through matrix_pivot: exact arithmetic does not care, floating point divides by '
+                                         'whatever small pivot it meets (these routines are specified with partial pivoting)'))
             except Violation as v:
                 if isinstance(v, Raised) or v.rule == 'RAISE':
                     raised[name] += 1            # no result is returned: outside what the property states (counted and reported in the evidence)
